@@ -94,6 +94,27 @@ def load_known():
     return json.load(open(KNOWN_FILE))["findings"]
 
 
+def partial(chk, out=sys.stdout):
+    """the analysis stopped (ANALYSIS-ERROR) after some rules had run: violations found so far are still violations and are reported; no evidence file, no floors.
+    Returns the number of violations printed."""
+    known = {f'{k["rule"]}|{k["key"]}' for k in load_known() if k["property"] == chk.pid and k.get("status") == "known"}
+    seen = {}
+    for o in chk.obs:
+        if not o.ok and o.fkey() not in known:
+            seen.setdefault(o.fkey(), o)
+    os.makedirs(os.path.join(EVIDENCE_DIR, "replay"), exist_ok=True)
+    for i, o in enumerate(seen.values()):
+        rp = os.path.join(EVIDENCE_DIR, "replay", f"{chk.pid}-{i}.json")
+        rec = o.as_dict()
+        rec.update({"property": chk.pid, "rule_text": chk.rules.get(o.rule, ""), "repo": chk.repo, "partial_run": True})
+        with open(rp, "w") as fh:
+            json.dump(rec, fh, indent=1)
+        loc = f"{o.where}" + (f":{o.line}" if o.line else "")
+        print(f"  {chk.pid} {o.rule} [{o.key}] @ {loc}: found {o.found!r}; expected {o.expected!r}. {o.detail}", file=out)
+        print(f"VIOLATION property={chk.pid} replay={rp}", file=out)
+    return len(seen)
+
+
 def finish(chk, seed=0, out=sys.stdout, write=True):
     """Apply known-findings, print protocol lines, write evidence.  Returns exit status."""
     chk.check_floors()
